@@ -214,6 +214,7 @@ func instrumentPackage(fset *token.FileSet, li *localImporter, sp pkgSpec) {
 		names = append(names, f)
 	}
 	info := &types.Info{
+		InitOrder:  []*types.Initializer{},
 		Types:      map[ast.Expr]types.TypeAndValue{},
 		Defs:       map[*ast.Ident]types.Object{},
 		Uses:       map[*ast.Ident]types.Object{},
@@ -337,7 +338,35 @@ func (in *inst) findMutableGlobals(files []*ast.File) {
 				in.mutable[v] = true
 			}
 		}
+		// A variable that holds a reference (pointer, map, slice, func, interface, or a struct
+		// with such a field) can be changed through any alias of what it refers to without the
+		// variable itself ever being assigned: what it reaches is process-wide mutable state.
+		if v, ok := sc.Lookup(name).(*types.Var); ok && name != "_" && typeHasRefs(v.Type(), 0) {
+			in.mutable[v] = true
+		}
 	}
+}
+
+func typeHasRefs(t types.Type, depth int) bool {
+	if depth > 6 {
+		return true
+	}
+	switch u := t.Underlying().(type) {
+	case *types.Pointer, *types.Map, *types.Chan, *types.Signature, *types.Interface, *types.Slice:
+		return true
+	case *types.Array:
+		return typeHasRefs(u.Elem(), depth+1)
+	case *types.Struct:
+		if nt, ok := t.(*types.Named); ok && nt.Obj().Pkg() != nil && nt.Obj().Pkg().Path() == "sync" {
+			return false // handled by the sync rules
+		}
+		for i := 0; i < u.NumFields(); i++ {
+			if typeHasRefs(u.Field(i).Type(), depth+1) {
+				return true
+			}
+		}
+	}
+	return false
 }
 
 func (in *inst) site(pos token.Pos) uint32 {
@@ -793,7 +822,24 @@ func (in *inst) writeGenerated(files []*ast.File) {
 		}
 	}
 	var skipped []string
+	// Go's own initialisation order first (an initialiser may use variables initialised before
+	// it), then the variables that have no initialiser, by name.
+	var order []string
+	seenName := map[string]bool{}
+	for _, ini := range in.info.InitOrder {
+		for _, v := range ini.Lhs {
+			if v.Parent() == sc && !seenName[v.Name()] {
+				seenName[v.Name()] = true
+				order = append(order, v.Name())
+			}
+		}
+	}
 	for _, name := range sc.Names() {
+		if !seenName[name] {
+			order = append(order, name)
+		}
+	}
+	for _, name := range order {
 		v, ok := sc.Lookup(name).(*types.Var)
 		if !ok || name == "_" {
 			continue
@@ -814,7 +860,9 @@ func (in *inst) writeGenerated(files []*ast.File) {
 		switch {
 		case !has || isSyncMap:
 			fmt.Fprintf(&b, "\tzzZero(&%s)\n", name)
-		case pureInit(init):
+		case pureInit(init) || in.reevaluable(init):
+			// (a call of a function of this package or of a known constructor is evaluated again,
+			// exactly as at process start)
 			var eb bytes.Buffer
 			if err := format.Node(&eb, in.fset, init); err != nil {
 				skipped = append(skipped, name)
@@ -854,6 +902,92 @@ func (in *inst) writeGenerated(files []*ast.File) {
 		fatal("generated file: %v", err)
 	}
 	must(os.WriteFile(filepath.Join(in.spec.outDir, "zz_simgen_generated.go"), out, 0o644))
+}
+
+var pureConstructors = map[string]bool{
+	"strings.NewReplacer": true, "errors.New": true, "fmt.Errorf": true, "fmt.Sprintf": true, "regexp.MustCompile": true,
+	"reflect.TypeOf": true, "reflect.ValueOf": true, "bytes.NewBufferString": true, "bytes.NewBuffer": true, "strings.NewReader": true,
+}
+
+// reevaluable reports whether an initialiser may be evaluated again to restore the initial
+// state: calls of functions declared in this package (they ran once at process start with the
+// same inputs) and of known constructors, over literals, constants and package-level variables.
+func (in *inst) reevaluable(e ast.Expr) bool {
+	switch x := e.(type) {
+	case *ast.BasicLit:
+		return true
+	case *ast.Ident:
+		switch in.info.Uses[x].(type) {
+		case *types.Const, *types.Nil, *types.Var, *types.TypeName, *types.Builtin, *types.Func:
+			return true
+		}
+		return x.Name == "nil" || x.Name == "true" || x.Name == "false"
+	case *ast.ParenExpr:
+		return in.reevaluable(x.X)
+	case *ast.UnaryExpr:
+		return x.Op != token.ARROW && in.reevaluable(x.X)
+	case *ast.BinaryExpr:
+		return in.reevaluable(x.X) && in.reevaluable(x.Y)
+	case *ast.StarExpr:
+		return in.reevaluable(x.X)
+	case *ast.SelectorExpr:
+		if id, ok := x.X.(*ast.Ident); ok {
+			if _, isPkg := in.info.Uses[id].(*types.PkgName); isPkg {
+				switch in.info.Uses[x.Sel].(type) {
+				case *types.Const, *types.Var, *types.TypeName:
+					return true
+				}
+				return pureConstructors[id.Name+"."+x.Sel.Name]
+			}
+		}
+		return in.reevaluable(x.X)
+	case *ast.CompositeLit:
+		for _, el := range x.Elts {
+			if kv, ok := el.(*ast.KeyValueExpr); ok {
+				el = kv.Value
+			}
+			if !in.reevaluable(el) {
+				return false
+			}
+		}
+		return true
+	case *ast.FuncLit:
+		return true
+	case *ast.ArrayType, *ast.MapType, *ast.StructType, *ast.InterfaceType, *ast.FuncType, *ast.ChanType:
+		return true
+	case *ast.IndexExpr:
+		return in.reevaluable(x.X) && in.reevaluable(x.Index)
+	case *ast.CallExpr:
+		for _, a := range x.Args {
+			if !in.reevaluable(a) {
+				return false
+			}
+		}
+		switch f := x.Fun.(type) {
+		case *ast.Ident:
+			switch o := in.info.Uses[f].(type) {
+			case *types.Builtin, *types.TypeName:
+				return true
+			case *types.Func:
+				return o.Pkg() == in.pkg
+			}
+			return false
+		case *ast.SelectorExpr:
+			if id, ok := f.X.(*ast.Ident); ok {
+				if _, isPkg := in.info.Uses[id].(*types.PkgName); isPkg {
+					if _, isType := in.info.Uses[f.Sel].(*types.TypeName); isType {
+						return true // conversion
+					}
+					return pureConstructors[id.Name+"."+f.Sel.Name]
+				}
+			}
+			return false
+		case *ast.ParenExpr, *ast.ArrayType, *ast.MapType, *ast.StarExpr:
+			return true // conversion to a composite type
+		}
+		return false
+	}
+	return false
 }
 
 // pureInit reports whether an initialiser can be re-evaluated without side effects:
